@@ -58,11 +58,15 @@ type env struct {
 	st    *Store
 	chain *vh.Chain
 	// model: heights appended and not deleted
-	P         map[uint64]bool
-	anchored  bool // a chain exists: something was appended since creation / the last whole-chain delete
-	started   bool
-	coarse    bool   // collapse the sub-clauses of "still there" into one signature
-	newDuring uint64 // height appended from inside an OnDelete handler during the judged deletion (0 = none)
+	P        map[uint64]bool
+	anchored bool // a chain exists: something was appended since creation / the last whole-chain delete
+	started  bool
+	coarse   bool // collapse the sub-clauses of "still there" into one signature
+	// strictUnstored: also demand that Get/Has by hash fail for heights outside the model (sequential histories only:
+	// under a concurrent deleter a racing by-hash read can legitimately or not put a header back, see DESIGN 6.2)
+	strictUnstored bool
+	ghostCheck     bool   // (concurrent histories) a header outside the model may be served by hash only if it is in the datastore
+	newDuring      uint64 // height appended from inside an OnDelete handler during the judged deletion (0 = none)
 }
 
 func newChain(n int) *vh.Chain {
@@ -243,7 +247,29 @@ func (e *env) checkStored(T, H uint64, viol func(inv, what string)) {
 		if got := e.st.HasAt(bg, h); got != inRun {
 			viol("I6-hasat-disagrees", fmt.Sprintf("HasAt(%d)=%v, Tail %d Head %d", h, got, T, H))
 		}
+		if !e.P[h] && !e.strictUnstored {
+			// under a concurrent deleter a stray stored copy below Tail is tolerated (DESIGN 6.2), a header that is
+			// served by hash although its key is NOT in the datastore is not: it exists only in a cache
+			if e.ghostCheck {
+				if gh, err := e.st.Get(bg, want.Hash()); err == nil {
+					if hk, _ := e.rawKeysFor(h); !hk {
+						viol("I8-get-answers-from-cache-only", fmt.Sprintf("Get(hash of %d) returned %v although its key is not in the datastore (Tail %d Head %d): a deleted header lingers in the cache", h, gh, T, H))
+					}
+				}
+				e.c.Count("ghost_lookups", 1)
+			}
+			continue
+		}
 		if !e.P[h] {
+			// never appended, or deleted: neither lookup may still answer for it (a header that lingers in a cache
+			// under its hash after its deletion makes Get/Has disagree with HasAt/GetByHeight)
+			if has, err := e.st.Has(bg, want.Hash()); has {
+				viol("I8-has-true-for-unstored", fmt.Sprintf("Has(hash of %d)=true,%v although the header was deleted / never appended (Tail %d Head %d)", h, err, T, H))
+			}
+			if gh, err := e.st.Get(bg, want.Hash()); err == nil {
+				viol("I8-get-answers-for-unstored", fmt.Sprintf("Get(hash of %d) returned %v although the header was deleted / never appended (Tail %d Head %d)", h, gh, T, H))
+			}
+			e.c.Count("unstored_hash_lookups", 1)
 			continue
 		}
 		g, err := e.getByHeight(h)
